@@ -195,6 +195,10 @@ class Encoder:
                 net = sorted({self.rid[op.task] for op in self.run.net.pending if op.task in self.rid and (getattr(self.run, "threads", False) or (op.fut is not None and not op.fut.done()))})
                 live = sorted(self.rid[n] for n in e.get("live", []) if n in self.rid)
                 evs.append({"e": "End", "gated": gated, "netblocked": net, "live": live, "obs": last})
+        if any(e["ev"] == "Livelock" for e in self.run.events) and len(evs) > 400:
+            # the execution never quiesced (harness step limit): the first 400 quanta and the End
+            # event are enough for TLC to reject it (somebody is still running at the end)
+            evs = evs[:400] + [e for e in evs[-1:] if e["e"] == "End"]
         return {"cfg": self.cfg(), "ev": evs}
 
 
